@@ -138,6 +138,8 @@ var basicModes = []modeT{
 	{"enc-pb", srvOpts{bufSize: 64, enc: "pb"}, cliOpts{bufSize: 64}},
 	{"enc-code", srvOpts{bufSize: 64, enc: "code"}, cliOpts{bufSize: 64}},
 	{"enc-json", srvOpts{bufSize: 64, enc: "json"}, cliOpts{bufSize: 64}},
+	{"srv-nocopy", srvOpts{bufSize: 64, noCopy: true}, cliOpts{bufSize: 64}},
+	{"srv-nocopy-directIO", srvOpts{bufSize: 64, noCopy: true, directIO: true}, cliOpts{bufSize: 64}},
 }
 
 // ---- listener based fixture (fake socket): Server.ListenWithOptions / DialWithOptions, poll emulation
